@@ -168,8 +168,58 @@ def literal(v: Any) -> str:
     return repr(v)
 
 
+SAME_SOURCE = '''
+import icontract
+
+
+def make_bounded(limit, low):
+    """Every call makes a new contract from the same source text: the conditions share one code object, not their defaults."""
+    @icontract.require(lambda x, limit=limit, *, low=low: low <= x < limit)
+    def bounded(x):
+        return x
+    return bounded
+
+
+BOUNDED = [make_bounded(5, 0), make_bounded(10, 2), make_bounded(20, 4)]
+'''
+
+
+def run_same_source(w) -> None:
+    """Contracts made from one source text (a factory called several times) whose conditions differ in the defaults of parameters the
+    call does not supply: the message of a violation shows the values of ITS condition, whatever was violated before, in every order."""
+    import itertools  # pylint: disable=import-outside-toplevel
+
+    import icontract  # pylint: disable=import-outside-toplevel
+
+    limits = [(5, 0), (10, 2), (20, 4)]
+    for order in itertools.permutations(range(3)):
+        loaded = prog.load_source(SAME_SOURCE, w.scratch())
+        try:
+            for i in order:
+                limit, low = limits[i]
+                for x in (limit + 3, low - 1):
+                    try:
+                        loaded.module.BOUNDED[i](x)
+                        msg = "<returned>"
+                    except icontract.ViolationError as err:
+                        msg = str(err)
+                    # (`low <= x < limit` stops at its first comparison when x is below: Python never looks at `limit` then)
+                    want = (["limit was {}".format(limit)] if x >= low else []) + ["low was {}".format(low), "x was {}".format(x)]
+                    got = [ln for ln in msg.splitlines() if " was " in ln]
+                    w.case(("same-source", order, i, x))
+                    w.count("same_source_messages")
+                    w.count("messages_compared")
+                    if got != want:
+                        w.violation("C20/message-depends-on-earlier-violations", "contract #{} of one source text (limit={}, low={}) violated with x={} after "
+                                    "the order {}: value lines {} (expected {})".format(i, limit, low, x, order, got, want), {"same_source": list(order)})
+        finally:
+            loaded.unload()
+
+
 def run(w) -> None:
     rng = w.rng
+    if w.shard == 1 % w.nshards:
+        run_same_source(w)
     n_items = 1500 if w.tier == "thorough" else 320
     per_shard = n_items // w.nshards
     items = []
@@ -365,7 +415,8 @@ def run(w) -> None:
                     w.violation("C20/routine-or-class-listed", "the message lists `{} was {}`".format(key, vstr[:80]), case, {"parts": parts})
         for key in keys:
             # names which only the builtins module provides (functions, classes and constants such as NotImplemented, Ellipsis, __debug__)
-            if key.isidentifier() and hasattr(builtins, key) and key not in it["params"] and key not in ("result", "OLD", "self"):
+            if key.isidentifier() and hasattr(builtins, key) and key not in it["params"] and key not in ("result", "OLD", "self") \
+                    and key not in vars(mod):
                 w.count("filtered_argument_checks")
                 w.violation("C20/builtin-listed", "the message lists the built-in {}".format(key), case, {"parts": parts})
         for reserved in ("_ARGS", "_KWARGS"):
@@ -386,5 +437,8 @@ def run(w) -> None:
 
 
 def replay(case, w) -> None:
+    if "same_source" in case:
+        run_same_source(w)
+        return
     run(w)
     w.violations = [v for v in w.violations if v["case"].get("expr") == case.get("expr")] or w.violations
